@@ -1582,7 +1582,9 @@ func AggrFunExpr(query *Query, current Map, expr sqlparser.AggrFunc, opts ...Exp
 		}
 		return result, nil
 	}
-	rs, ok := query.singletonExecutions[name]
+	// the memo is keyed by the whole call, so that SUM(a) and SUM(b) do not share an entry
+	key := sqlparser.String(expr)
+	rs, ok := query.singletonExecutions[key]
 	if !ok {
 		slice, err := AggrFuncArgReader(query, map[string]any{"*": query.from}, sqlparser.Exprs{Exprs: expr.GetArgs()})
 		if err != nil {
@@ -1592,7 +1594,7 @@ func AggrFunExpr(query *Query, current Map, expr sqlparser.AggrFunc, opts ...Exp
 		if err != nil {
 			return nil, err
 		}
-		query.singletonExecutions[name] = result
+		query.singletonExecutions[key] = result
 		return result, nil
 	}
 	return rs, nil
